@@ -14,7 +14,9 @@ SPEC = hdr_spec(
                  "index order, unlinkable files): an image passing StoreOK loads without error or panic and its best chain is a linked chain of stored headers from the lowest height kept "
                  "in memory to the tip, ending in the heaviest linkable branch; StoreOK's executable test (proved sound) is evaluated by the driver on every image this run loaded "
                  "(coverage.load_hypothesis_StoreOK). Not proved: that every prefix of a LATER Save/Clean of a forest leaves StoreOK images (consolidate + branch-file merging), and the "
-                 "history below the in-memory window served from the main-chain files — there the enumeration carries the claim.")
+                 "history below the in-memory window served from the main-chain files — there the enumeration carries the claim. "
+                 "In the LINEAR WORLD (Proofs/LinearWorld: every history of tip-extending submissions of any length — across 1000-header file boundaries, the 10000-header prune depth and the automatic clean every 10000 heights — interleaved with Cleans, Saves and Loads of any depth, any number of generations) EVERY prefix of the write sequence of EVERY Save and EVERY Clean loads without error and reports the genesis-only chain (only while no index was ever written), "
+                 "the chain as last stored, or the chain being stored — tip and header at every height (C12_linear_crash_any_save / _any_clean).")
 
 META = dict(
     technique="Lean 4 proof (Load of every consistent storage image is sound; every crash prefix of the first Save of a linear chain loads and is sound; write-order theorems over the storage-event model, tied to the extracted call order) + exhaustive crash-prefix enumeration compared between code and model",
